@@ -109,3 +109,19 @@ def run_case(case):
         if any((">" not in l.split("\t")[5] and "<" not in l.split("\t")[5]) for l in lines):
             cl.append("stable_bare_contig")
     return core.Result(nontrivial, cl)
+
+
+def enumerations(tier, shard, nshards):
+    sizes = [1200] if tier == "quick" else [1000, 3000, 8000]
+
+    def gen():
+        k = 0
+        for n in sizes:
+            for stable in (False, True):
+                k += 1
+                if k % nshards != shard:
+                    continue
+                g, case = idx.big_file_case(n + 7, n, stable)
+                yield case
+
+    yield ("large files (%s records, BGZF in 20 KB blocks, stable and unstable)" % sizes, gen(), True)
